@@ -45,7 +45,7 @@ func (c *mChild) Capabilities() tally.Capabilities {
 	}
 	return mCaps{c.reporting, c.tagging}
 }
-func (c *mChild) Flush()                           { c.add("flush") }
+func (c *mChild) Flush() { c.add("flush") }
 func (c *mChild) ReportCounter(n string, t map[string]string, v int64) {
 	c.add("counter %s %s %d", n, tagString(t), v)
 }
@@ -56,7 +56,7 @@ func (c *mChild) ReportTimer(n string, t map[string]string, v time.Duration) {
 	c.add("timer %s %s %d", n, tagString(t), int64(v))
 }
 func (c *mChild) ReportHistogramValueSamples(n string, t map[string]string, b tally.Buckets, lo, hi float64, s int64) {
-	c.add("hvalue %s %s %v (%v,%v] %d", n, tagString(t), b, lo, hi, s)
+	c.add("hvalue %s %s %T %v (%v,%v] %d", n, tagString(t), b, b, lo, hi, s)
 }
 func (c *mChild) ReportHistogramDurationSamples(n string, t map[string]string, b tally.Buckets, lo, hi time.Duration, s int64) {
 	c.add("hduration %s %s %v (%d,%d] %d", n, tagString(t), b, int64(lo), int64(hi), s)
@@ -95,25 +95,33 @@ func (c *mChild) AllocateTimer(n string, t map[string]string) tally.CachedTimer 
 	return c.alloc("timer", n, t, "")
 }
 func (c *mChild) AllocateHistogram(n string, t map[string]string, b tally.Buckets) tally.CachedHistogram {
-	return c.alloc("histogram", n, t, fmt.Sprint(" ", b))
+	return c.alloc("histogram", n, t, fmt.Sprintf(" %T %v", b, b))
 }
 
 func c19Jobs(tier string) []*SeqJob {
 	tagsA, tagsB := map[string]string{"k": "1"}, map[string]string(nil)
 	vb := tally.ValueBuckets{1, 2}
 	db := tally.DurationBuckets{time.Second}
+	ub := userBuckets{3, 4} // a Buckets implementation of the application's own
 	plainAlpha := []string{"counter a 1", "counter b -2", "gauge a 1.5", "gauge b -0", "timer a 3", "timer b -4",
 		"hvalue a 7", "hvalue b 8", "hduration a 9", "hduration b 10", "flush"}
-	capPattern := 0 // 0: all children tag; 1: the first does not; 2: the last does not
+	// 0: all children tag and report; 1: the first does not tag; 2: the last does not tag; 3: the first says it does
+	// not report (it is handed every call all the same: the property speaks of every child); 4: the last says so
+	capPattern := 0
+	kidCaps := func(i, n int) (reporting, tagging bool) {
+		tagging = !((capPattern == 1 && i == 0) || (capPattern == 2 && i == n-1))
+		reporting = !((capPattern == 3 && i == 0) || (capPattern == 4 && i == n-1))
+		return
+	}
 	runPlain := func(n int, hist []int) (cl, det, key string, steps int) {
 		var log []string
 		var kids []tally.StatsReporter
 		ref := make([]*mChild, n)
 		var refLog []string
 		for i := 0; i < n; i++ {
-			tg := !((capPattern == 1 && i == 0) || (capPattern == 2 && i == n-1))
-			kids = append(kids, &mChild{id: i, log: &log, reporting: true, tagging: tg})
-			ref[i] = &mChild{id: i, log: &refLog, reporting: true, tagging: tg}
+			rp, tg := kidCaps(i, n)
+			kids = append(kids, &mChild{id: i, log: &log, reporting: rp, tagging: tg})
+			ref[i] = &mChild{id: i, log: &refLog, reporting: rp, tagging: tg}
 		}
 		m := multi.NewMultiReporter(kids...)
 		call := func(r tally.StatsReporter, op string) {
@@ -152,7 +160,7 @@ func c19Jobs(tier string) []*SeqJob {
 		key = fmt.Sprint(n, len(hist)) // the plain flavour is stateless: one state per (children, length)
 		return
 	}
-	cachedAlpha := []string{"alloc counter a", "alloc gauge a", "alloc timer b", "alloc hist a", "alloc dhist b",
+	cachedAlpha := []string{"alloc counter a", "alloc gauge a", "alloc timer b", "alloc hist a", "alloc dhist b", "alloc uhist a",
 		"report h0 1", "report h0 -2", "report h1 1", "report h1 3", "report h2 5",
 		"vbucket h0 1", "vbucket h0 2", "vbucket h1 1", "vbucket h1 2", "dbucket h0 1", "dbucket h1 1",
 		"samples b0 4", "samples b1 5", "samples b2 6", "flush"}
@@ -161,8 +169,9 @@ func c19Jobs(tier string) []*SeqJob {
 		var kids []tally.CachedStatsReporter
 		ref := make([]*mChild, n)
 		for i := 0; i < n; i++ {
-			kids = append(kids, &mChild{id: i, log: &log, reporting: true, tagging: true})
-			ref[i] = &mChild{id: i, log: &refLog, reporting: true, tagging: true}
+			rp, tg := kidCaps(i, n)
+			kids = append(kids, &mChild{id: i, log: &log, reporting: rp, tagging: tg})
+			ref[i] = &mChild{id: i, log: &refLog, reporting: rp, tagging: tg}
 		}
 		m := multi.NewMultiCachedReporter(kids...)
 		type hnd struct {
@@ -199,6 +208,8 @@ func c19Jobs(tier string) []*SeqJob {
 					h.m = m.AllocateHistogram(c, tg, vb)
 				case "dhist":
 					h.m = m.AllocateHistogram(c, tg, db)
+				case "uhist":
+					h.m = m.AllocateHistogram(c, tg, ub)
 				}
 				for _, r := range ref {
 					switch b {
@@ -212,6 +223,8 @@ func c19Jobs(tier string) []*SeqJob {
 						h.r = append(h.r, r.AllocateHistogram(c, tg, vb))
 					case "dhist":
 						h.r = append(h.r, r.AllocateHistogram(c, tg, db))
+					case "uhist":
+						h.r = append(h.r, r.AllocateHistogram(c, tg, ub))
 					}
 				}
 				hs = append(hs, h)
@@ -246,7 +259,7 @@ func c19Jobs(tier string) []*SeqJob {
 				var u float64
 				fmt.Sscanf(b, "h%d", &i)
 				fmt.Sscan(c, &u)
-				if i >= len(hs) || (hs[i].kind != "hist" && hs[i].kind != "dhist") {
+				if i >= len(hs) || (hs[i].kind != "hist" && hs[i].kind != "dhist" && hs[i].kind != "uhist") {
 					continue
 				}
 				h := hs[i]
@@ -286,7 +299,7 @@ func c19Jobs(tier string) []*SeqJob {
 		for _, h := range hs {
 			ks = append(ks, h.kind)
 		}
-		key = fmt.Sprint(n, ks, len(bs), func() (o []string) {
+		key = fmt.Sprint(n, capPattern, ks, len(bs), func() (o []string) {
 			for _, b := range bs {
 				if len(b.r) > 0 {
 					o = append(o, b.r[0].(mHandle).desc)
@@ -301,7 +314,7 @@ func c19Jobs(tier string) []*SeqJob {
 	plain := &SeqJob{Property: "C19", Name: "plain-fan-out-histories"}
 	plain.Run = func(ctx *SeqCtx) {
 		for n := 0; n <= 5; n++ {
-			for capPattern = 0; capPattern < 3; capPattern++ {
+			for capPattern = 0; capPattern < 5; capPattern++ {
 				if capPattern > 0 && (n == 0 || n > 3) {
 					continue
 				}
@@ -354,8 +367,21 @@ func c19Jobs(tier string) []*SeqJob {
 			n := n
 			saved, savedN := ctx.shard, ctx.nshards
 			ctx.shard, ctx.nshards = 0, 1 // bfs shards by first op; here the shard unit is the child count
-			ctx.OpsPrefix = []string{fmt.Sprintf("children=%d", n)} // makes the replay self-contained
-			bfs(ctx, cachedAlpha, depthC, func(h []int) (string, string, string, int) { return runCached(n, h) })
+			for capPattern = 0; capPattern < 5; capPattern++ {
+				if capPattern > 0 && (n == 0 || n > 3) {
+					continue
+				}
+				d := depthC
+				if capPattern > 0 {
+					d = depthC - 1
+				}
+				ctx.OpsPrefix = []string{fmt.Sprintf("children=%d caps=%d", n, capPattern)} // makes the replay self-contained
+				bfs(ctx, cachedAlpha, d, func(h []int) (string, string, string, int) { return runCached(n, h) })
+				if ctx.viol != nil {
+					break
+				}
+			}
+			capPattern = 0
 			ctx.shard, ctx.nshards = saved, savedN
 			if ctx.viol != nil {
 				return
@@ -364,7 +390,8 @@ func c19Jobs(tier string) []*SeqJob {
 	}
 	cached.Replay = func(ops []string) (string, string) {
 		var n int
-		fmt.Sscanf(ops[0], "children=%d", &n)
+		fmt.Sscanf(ops[0], "children=%d caps=%d", &n, &capPattern)
+		defer func() { capPattern = 0 }()
 		return guard(func() (string, string) { c, d, _, _ := runCached(n, opIndex(cachedAlpha, ops[1:])); return c, d })
 	}
 	// nested: a multi reporter is itself a child of two further multi reporters (first or last among their
@@ -709,4 +736,20 @@ func c19Scenarios(tier string) []*Scenario {
 		out = append(out, sg)
 	}
 	return out
+}
+
+// userBuckets is a Buckets implementation that is neither ValueBuckets nor DurationBuckets.
+type userBuckets []float64
+
+func (u userBuckets) String() string      { return fmt.Sprintf("user%v", []float64(u)) }
+func (u userBuckets) Len() int            { return len(u) }
+func (u userBuckets) Swap(i, j int)       { u[i], u[j] = u[j], u[i] }
+func (u userBuckets) Less(i, j int) bool  { return u[i] < u[j] }
+func (u userBuckets) AsValues() []float64 { return []float64(u) }
+func (u userBuckets) AsDurations() []time.Duration {
+	d := make([]time.Duration, len(u))
+	for i := range u {
+		d[i] = time.Duration(u[i] * float64(time.Second))
+	}
+	return d
 }
